@@ -1,5 +1,6 @@
 import YardlModel.WireJson
 import YardlModel.Streams
+import YardlModel.Batch
 
 /-! Line-protocol driver for the wire engine: one JSON request per line on stdin, one JSON
     reply per line on stdout. -/
@@ -60,6 +61,66 @@ def runCis (s : CIS) : List Json → List String → Except String (List String)
     | some (tok, s') => runCis s' rest (tok :: acc)
     | none => pure (stop :: acc).reverse
 
+/-- Decode as many items of a (possibly cut) stream step as possible. Returns items, whether the
+    terminating 0 was seen, and the rest. Driver-only (no theorem uses it). -/
+partial def decBlocksPartial (t : Ty) (bs : Bytes) (acc : List Val) : List Val × Bool × Bytes :=
+  match decVar bs with
+  | none => (acc.reverse, false, bs)
+  | some (n, r) =>
+    if n = 0 then (acc.reverse, true, r)
+    else
+      let rec items (k : Nat) (r : Bytes) (acc : List Val) : List Val × Bool × Bytes :=
+        match k with
+        | 0 => (acc, true, r)
+        | k + 1 =>
+          match dec t r with
+          | none => (acc, false, r)
+          | some (v, r') => items k r' (v :: acc)
+      let (acc', okb, r') := items n r acc
+      if okb then decBlocksPartial t r' acc' else (acc'.reverse, false, r')
+
+/-- Decode the longest prefix of step values; the last element may be a partial stream. -/
+partial def decStepsPartial : Proto → Bytes → List StepVal → List StepVal × Bool
+  | [], bs, acc => (acc.reverse, bs.isEmpty)
+  | s :: ss, bs, acc =>
+    if s.isStream then
+      let (items, fin, r) := decBlocksPartial s.ty bs []
+      if fin then decStepsPartial ss r (.stream items :: acc)
+      else ((StepVal.stream items :: acc).reverse, false)
+    else
+      match dec s.ty bs with
+      | none => (acc.reverse, false)
+      | some (v, r) => decStepsPartial ss r (.single v :: acc)
+
+/-- Block sizes of every stream step of a complete stream (driver-only). -/
+partial def blockSizes (t : Ty) (bs : Bytes) (acc : List Nat) : Option (List Nat × Bytes) :=
+  match decVar bs with
+  | none => none
+  | some (n, r) =>
+    if n = 0 then some (acc.reverse, r)
+    else match decList (dec t) n r with
+      | none => none
+      | some (_, r') => blockSizes t r' (n :: acc)
+
+partial def stepBlockSizes : Proto → Bytes → List (List Nat) → Option (List (List Nat))
+  | [], _, acc => some acc.reverse
+  | s :: ss, bs, acc =>
+    if s.isStream then
+      match blockSizes s.ty bs [] with
+      | none => none
+      | some (sizes, r) => stepBlockSizes ss r (sizes :: acc)
+    else
+      match dec s.ty bs with
+      | none => none
+      | some (_, r) => stepBlockSizes ss r ([] :: acc)
+
+/-- Batch sizes the generated C++ `ReaderBase::ReadX(std::vector&)` loop delivers for a stream
+    written with block partition `part`, read with capacity `cap` (model: `BS.readBatch`). -/
+partial def modelBatches (s : BS) (cap : Nat) (acc : List Nat) : List Nat :=
+  let (vs, s') := s.readBatch cap
+  let acc' := if vs.isEmpty then acc else vs.length :: acc
+  if s'.cbr = 0 then acc'.reverse else modelBatches s' cap acc'
+
 def handle (j : Json) : Except String Json := do
   let op ← (← j.getObjVal? "op").getStr?
   match op with
@@ -97,6 +158,33 @@ def handle (j : Json) : Except String Json := do
       | some (vs, r) =>
         pure (Json.mkObj [("schema", Json.str (bytesStr schema)),
           ("vals", Json.arr (vs.map stepValToJson).toArray), ("rest", jn r.length)])
+  | "dec_proto_partial" =>
+    let p ← protoOfJson (← j.getObjVal? "proto")
+    let h ← (← j.getObjVal? "hex").getStr?
+    let some bs := ofHex h | throw "bad hex"
+    match decHeader bs with
+    | none => pure (Json.mkObj [("error", "header")])
+    | some (schema, body) =>
+      let (vs, complete) := decStepsPartial p body []
+      pure (Json.mkObj [("schema", Json.str (bytesStr schema)),
+        ("vals", Json.arr (vs.map stepValToJson).toArray), ("complete", Json.bool complete)])
+  | "block_sizes" =>
+    let p ← protoOfJson (← j.getObjVal? "proto")
+    let h ← (← j.getObjVal? "hex").getStr?
+    let some bs := ofHex h | throw "bad hex"
+    match decHeader bs with
+    | none => pure (Json.mkObj [("error", "header")])
+    | some (_, body) =>
+      match stepBlockSizes p body [] with
+      | none => pure (Json.mkObj [("error", "body")])
+      | some sizes => pure (Json.mkObj [("sizes", Json.arr (sizes.map fun l => Json.arr (l.map jn).toArray).toArray)])
+  | "model_batches" =>
+    let part ← (← j.getObjVal? "part").getArr?
+    let part ← part.toList.mapM jNat
+    let cap ← jNat (← j.getObjVal? "cap")
+    let n := part.foldl (· + ·) 0
+    let items := (List.range n).map fun (i : Nat) => Val.int (Int.ofNat i)
+    pure (Json.mkObj [("batches", Json.arr ((modelBatches (BS.init part items) cap []).map jn).toArray)])
   | "cos" =>
     let lang ← (← j.getObjVal? "lang").getStr?
     let cap ← jNat (← j.getObjVal? "cap")
